@@ -476,11 +476,11 @@ def gen_problem(rng, rich=True, ncells=None):
 
 
 def gen_geometry(rng, snums, earlier_cells, depth):
-    """atoms of a cell geometry; the first leaf is a surface so that no '#' can land in columns 1-5"""
+    """atoms of a cell geometry (since fix 453a5e4 a '#' may stand anywhere but at the very start of a line)"""
     state = {"first": True}
 
     def leaf():
-        if not state["first"] and earlier_cells and rng.random() < 0.15:
+        if earlier_cells and rng.random() < 0.15:
             return W("#" + str(rng.choice(earlier_cells)))
         state["first"] = False
         return W(rng.choice(["", "-", "+"]) + str(rng.choice(snums)))
@@ -552,6 +552,8 @@ def realise_words(rng, atoms, style):
     return words
 
 
+JUNK_LINES = ["c MCNP ignores what follows the blank line that ends the data block", "nps 77", "this is not MCNP input at all",
+              "# 1 2 3", "read file=nowhere.i", "1 0 -1 &", "", "99 0 -1 imp:n=1", "\tx $ y", "m1 1001.80c"]
 COMMENT_TEXTS = ["", "a comment", "1 0 -1", "imp:n=1", "text with & inside", "ends with &", "$ dollars $", "(paren) = sign", "read file=nothing.i", "C c C"]
 
 
@@ -579,8 +581,6 @@ def gen_layout(rng, words, limit, feats):
             if col + 1 + len(w) > maxw:
                 k = "newline"
         if k == "blanks":
-            if "#" in w and col + nb + 1 + w.index("#") < 5:
-                nb = 5  # a '#' in columns 1-5 means vertical input format
             gaps.append({"k": "blanks", "n": nb})
             col += nb + 1 + len(w)
             continue
@@ -589,8 +589,8 @@ def gen_layout(rng, words, limit, feats):
             pre_b = rng.randint(0, 2)
             t = rng.randint(0, 3) if "trail" in feats else 0
             n = rng.randint(0, 8)
-            if n < 5 and ("#" in w[: 5 - n] or w.lower() == "c" or len(w) < 5 - n):
-                n = 5 + n  # no '#' in columns 1-5, no lone 'c' there, and no short word that leaves room for a '#' behind it
+            if n < 5 and (w.startswith("#") or w.lower() == "c"):
+                n = 5 + n  # a line must not begin with '#' in columns 1-5 (vertical format) nor with a lone 'c' (comment)
             if col + pre_b + 2 + t > maxw:
                 k = "newline"
             else:
@@ -708,7 +708,8 @@ def assemble(rng, prob_title, message, blocks_lines, phys):
     if phys.get("final_blank"):
         lines.append("")
         if phys.get("junk"):
-            lines += ["c MCNP ignores what follows the blank line that ends the data block", "nps 77"]
+            # MCNP ignores whatever follows the blank line that ends the data block: anything may stand there
+            lines += rng.sample(JUNK_LINES, rng.randint(1, 4))
     eol = "\r\n" if phys.get("crlf") else "\n"
     text = eol.join(lines) + eol
     if phys.get("no_final_eol"):
